@@ -27,6 +27,8 @@ Driver for C18.  Operations (one per line; `harness/c18.cpp` implements the same
 * `cycx kind len f s i ops…` — a walk like `cycw` but from an arbitrary position and any boundary `f ≤ s`; needs a margin of `#ops` positions
 * `cycl len f s start sgn k` — `it + k` (`sgn` = `+`) / `it - k` (`-`) for any 64-bit `k` in `ptrdiff_t` arithmetic
 * `cycd kind len i f s` — the default constructor, then assignment
+* `cycc kind len f s i f2 s2 j k` — converting constructor / assignment `cyclic_iterator<iterator>` → `cyclic_iterator<const_iterator>` (into a default-constructed
+                        iterator, over an iterator at `j` with boundary `[f2, s2)`, and with `OtherIterator` = the same type), then `k` steps on the converted iterator
 * `spi ty x y d n`    — `spiral_iterator(pos(x,y), d)` used directly: `n` steps alternating `++it` / `it++`, comparison with `end()`, with an
                         iterator of another `max_dist`, swap
 -/
@@ -111,12 +113,12 @@ def cycWalk (randomAccess : Bool) : List String → Cyc → List String → Opti
     | 'm', none => let c' := c.decrement; cycWalk randomAccess ts c' (s!"{c.it}>{c'.it}" :: acc)
     | 'a', some k =>
       if !randomAccess then none else
-      match c.advance k with
+      match c.apply (.adv k) with
       | .ok c' => cycWalk randomAccess ts c' (toString c'.it :: acc)
       | .error f => some (f.name :: acc).reverse          -- the walk ends at the fault
     | 's', some k =>
       if !randomAccess then none else
-      match c.advance (-k) with            -- operator-=(d) = *this += -d
+      match c.apply (.sub k) with          -- operator-=(d) = *this += -d
       | .ok c' => cycWalk randomAccess ts c' (toString c'.it :: acc)
       | .error f => some (f.name :: acc).reverse
     | 'i', some k =>
@@ -138,6 +140,21 @@ def cycpLine (len : Int) (x y : Cyc) : String :=
   let z := y                      -- z{x}; z = y;
   s!"cmp={cmp} d={y.sub x},{x.sub y} self={self},{x.sub x} get={x.it},{y.it} bnd={x.first}:{x.second},{y.first}:{y.second} val={v} " ++
   s!"sw={showCyc sw.1},{showCyc sw.2} fsw={showCyc fsw.1},{showCyc fsw.2} ssw={showCyc ssw} cp={showCyc z}/{b01 (z.equal y)}"
+
+def cyccLine (randomAccess : Bool) (x w : Cyc) (k : Int) : String :=
+  let y := Cyc.convert x
+  let z := Cyc.default.assignFrom x
+  let w' := w.assignFrom x
+  let same := (Cyc.default.assignFrom y)          -- operator=<const_iterator>(y) on a const_iterator cyclic iterator
+  -- k steps on the converted iterator: `y += k` on a vector, |k| times ++ / -- on a list
+  let adv : String :=
+    if randomAccess then
+      match y.advance k with
+      | .ok a => toString a.it
+      | .error f => f.name
+    else toString (if k ≥ 0 then iter Cyc.increment k.toNat y else iter Cyc.decrement (-k).toNat y).it
+  -- the source moves on afterwards, the converted copy does not
+  s!"cv={showCyc y} as={showCyc z} ow={showCyc w'} st={showCyc same} eq={b01 (y.equal z)} adv={adv} src={x.increment.it}:{y.it}"
 
 def cyclLine (c : Cyc) (plus : Bool) (k : Int) : String :=
   match (if plus then c.advance64 k else c.subAssign64 k) with
@@ -344,6 +361,13 @@ def handle (toks : List String) : String :=
         cyclLine ⟨start, f, s⟩ (sgn == "+") k
       else "bad-op"
     | _, _, _, _, _ => "bad-op"
+  | ["cycc", kind, len, f, s, i, f2, s2, j, k] =>
+    match len.toNat?, f.toNat?, s.toNat?, i.toNat?, f2.toNat?, s2.toNat?, j.toNat?, int? k with
+    | some len, some f, some s, some i, some f2, some s2, some j, some k =>
+      if (kind = "v" ∨ kind = "l") ∧ f < s ∧ s ≤ len ∧ f ≤ i ∧ i < s ∧ f2 ≤ s2 ∧ s2 ≤ len ∧ j ≤ len ∧ len ≤ 64 ∧ -1000 ≤ k ∧ k ≤ 1000 then
+        cyccLine (kind == "v") ⟨i, f, s⟩ ⟨j, f2, s2⟩ k
+      else "bad-op"
+    | _, _, _, _, _, _, _, _ => "bad-op"
   | ["cycd", kind, len, i, f, s] =>
     match len.toNat?, i.toNat?, f.toNat?, s.toNat? with
     | some len, some i, some f, some s =>
